@@ -214,6 +214,7 @@ func C11(r *core.Report) {
 		"R4 no cbor.DecOptions literal in the decoder packages lowers MaxArrayElements / MaxMapPairs / MaxNestedLevels below the library defaults (the fast decoders must accept every list length the reference decoder accepts). " +
 		"Not decided: integer sign/overflow, list edge cases, byte-level equality with the bindnode decoder."
 	c11DecoderLimits(r)
+	c11NoExtraRejection(r)
 	p := r.Prog
 	schema, err := parseSchema(filepath.Join(p.RepoDir, "ledger.ipldsch"))
 	if err != nil {
@@ -694,4 +695,54 @@ func c11DecoderLimits(r *core.Report) {
 	}
 	// every decoder construction in UnmarshalCBOR goes through the default mode or a checked mode (nothing else to decide)
 	r.OK(rule, "decoder-packages-scanned", "", fmt.Sprintf("%d cbor.DecOptions literals in the decoder packages", n))
+}
+
+// c11NoExtraRejection (C11.R5): a fast decoder may refuse a node only where the schema-driven decoder refuses it too: when
+// the bytes do not unmarshal, or when the kind is not its own. Every error return of a _Decode*Fast function is
+// therefore reached under the failure of its unmarshal step or under the kind test; any further validation makes the
+// fast decoder reject schema-conforming nodes.
+func c11NoExtraRejection(r *core.Report) {
+	const rule = "C11.R5"
+	p := r.Prog
+	n := 0
+	for _, f := range p.FuncsInPkg("iplddecoders") {
+		if f.Obj == nil || f.Body == nil || !strings.HasPrefix(f.Obj.Name(), "_Decode") || !strings.HasSuffix(f.Obj.Name(), "Fast") {
+			continue
+		}
+		n++
+		info := f.Pkg.TypesInfo
+		g := p.Graph(f)
+		bad := ""
+		for _, rn := range g.Returns() {
+			if nilErr, dec := isNilErrReturn(f, rn); dec && nilErr {
+				continue
+			}
+			ok := false
+			for _, fc := range g.FactsAt(rn) {
+				if fc.Tag != nil {
+					continue
+				}
+				// err != nil of the decode step
+				if x, isNil, isCmp := core.NilCompare(info, fc.Expr); isCmp && isNil != fc.Truth {
+					if o := core.ObjOf(info, x); o != nil && core.IsErrorType(o.Type()) {
+						ok = true
+					}
+				}
+				// the kind test
+				if be, isB := core.Unparen(fc.Expr).(*ast.BinaryExpr); isB && ((be.Op == token.NEQ && fc.Truth) || (be.Op == token.EQL && !fc.Truth)) {
+					if strings.Contains(core.ExprStr(be), ".Kind") && strings.Contains(core.ExprStr(be), "Kind") {
+						ok = true
+					}
+				}
+			}
+			if !ok {
+				bad = p.Rel(rn.Ast.Pos())
+			}
+		}
+		r.Check(bad == "", rule, f.Key+"#rejects-only-on-decode-error-or-kind", posP(r, f.Pos()), "errors are returned only when the bytes do not unmarshal or the kind is not the decoder's own",
+			"the fast decoder returns an error at "+bad+" for a reason other than a failed unmarshal or a foreign kind: nodes the schema-driven decoder accepts are rejected")
+	}
+	if n < 7 {
+		r.Undecided(rule, "iplddecoders#fast-decoders", "", fmt.Sprintf("only %d _Decode*Fast functions found (7 expected)", n))
+	}
 }
